@@ -177,10 +177,7 @@ def vector_star_oracles(ss, vk, tol=1e-8):
         s0 = ss.states[vk.vecpos[first['vstar']][0]]
         kind = 'origin' if s0.iszero() else 'pair'
         first['max_error'] = worst
-        # generate() decides "this reference vector is the invariant one" by |g00 - 1| < 1e-8, which is quadratic in the
-        # misalignment angle: the accepted vector can be off by sqrt(2e-8) = 1.4e-4.  Errors below 2e-4 are that
-        # threshold artefact (signature suffix ':small'), anything larger is a different failure.
-        out.append(('equivariance:%s:%s%s' % (kind, stab_kind(vk.vecpos[first['vstar']][0]), ':small' if worst <= 2e-4 else ''),
+        out.append(('equivariance:%s:%s' % (kind, stab_kind(vk.vecpos[first['vstar']][0])),
                     'v(g.s) != R_g v(s) for %d of %d group ops, max error %.3g (first: op %d, vector star %d at state %s)'
                     % (nbad, len(G), worst, first['op'], first['vstar'], first['state_str']), first))
     # completeness: number of vector stars on a star = dim of the invariant space of the stabiliser (character average)
@@ -261,7 +258,7 @@ def covariance_oracle(base, rot, Q, tol=1e-8):
     if unmatched:      # the reduced cells differ (site numbering): nothing to compare, not a failure of the property
         return out
     if worst > tol:
-        out.append(('rotation:projector' + (':small' if worst <= 4e-4 else ''),
+        out.append(('rotation:projector',
                     'span of the vector stars at state (%d,%d,dx=%s) is not the rotated image of the unrotated one: deviation %.3g'
                     % (where[0], where[1], where[2], worst), dict(state=list(where), deviation=worst)))
     return out
